@@ -281,8 +281,9 @@ func removePadding(payload []byte) ([]byte, byte) {
 	good &= good << 1
 	good = uint8(int8(good) >> 7)
 
-	toRemove := good&paddingLen + 1
-	return payload[:len(payload)-int(toRemove)], good
+	// paddingLen + 1 does not fit in a byte when paddingLen is 255
+	toRemove := int(good&paddingLen) + 1
+	return payload[:len(payload)-toRemove], good
 }
 
 // removePaddingSSL30 is a replacement for removePadding in the case that the
